@@ -49,11 +49,12 @@ theorem setKey_mid (k : String) (v w : J) : ∀ (pre post : List (String × J)),
 
 /-! ### the answer of `A` and the search for the stitch points -/
 
-/-- what `A` answers below `q` after the helper id: `A`'s share `a` of `f…`, then the object under
-    `g` with its id and `A`'s share `a'` of `h…` -/
-def aG (g i' : String) (a a' : List (String × J)) : List (String × J) := a ++ [(g, .obj (("id", .str i') :: a'))]
+/-- what `A` answers below `q` after the helper id: `A`'s share `a1` of `f1…`, the object under `g`
+    with its id and `A`'s share `a'` of `h…`, then `A`'s share `a2` of `f2…` -/
+def aG (g i' : String) (a1 a2 a' : List (String × J)) : List (String × J) :=
+  a1 ++ (g, .obj (("id", .str i') :: a')) :: a2
 
-variable {c : PCtx} {A B T U q g : String} {fs hs : List FieldSpec}
+variable {c : PCtx} {A B T U q g : String} {fs1 fs2 hs : List FieldSpec}
 
 theorem findSelection_leaves (g : String) (tail : List Sel) : ∀ (xs : List FieldSpec), g ∉ namesOf xs →
     findSelection g (leaves xs ++ tail) = findSelection g tail
@@ -68,39 +69,48 @@ theorem findSelection_leaves (g : String) (tail : List Sel) : ∀ (xs : List Fie
     rw [findSelection_skip_leaf _ _ _ _ _ _ _ _ hne]
     exact findSelection_leaves g tail xs (by simpa [namesOf] using hg.2)
 
+theorem names_subA (fs : List FieldSpec) : (namesOf (fsA fs)).Sublist (namesOf fs) :=
+  List.Sublist.map _ List.filter_sublist
+theorem names_subB (fs : List FieldSpec) : (namesOf (fsB fs)).Sublist (namesOf fs) :=
+  List.Sublist.map _ List.filter_sublist
+
+theorem g_not_fs1 (h : Fam c A B T U q g fs1 fs2 hs) : g ∉ namesOf fs1 := fun hm =>
+  h.hgnew (by rw [names_append]; exact List.mem_append_left _ hm)
+theorem g_not_fs2 (h : Fam c A B T U q g fs1 fs2 hs) : g ∉ namesOf fs2 := fun hm =>
+  h.hgnew (by rw [names_append]; exact List.mem_append_right _ hm)
+
 /-- below `q`, the name `g` resolves to the nested field (the helper id and `A`'s leaf fields before it
-    are passed over) -/
-theorem findSelection_g (h : Fam c A B T U q g fs hs) :
-    findSelection g (idField :: (leaves (fsA fs) ++ [Gown U g hs])) = some (Gown U g hs) := by
+    are passed over; what follows it is not looked at) -/
+theorem findSelection_g (h : Fam c A B T U q g fs1 fs2 hs) :
+    findSelection g (idField :: (leaves (fsA fs1) ++ Gown U g hs :: leaves (fsA fs2))) = some (Gown U g hs) := by
   have hid : ((if ("" : String) != "" then "" else "id") == g) = false := by
     have : ¬ "id" = g := fun e => h.hgid e.symm
     simp [this]
-  have hsub : g ∉ namesOf (fsA fs) := fun hm =>
-    h.hgnew ((List.Sublist.map _ List.filter_sublist).subset hm)
+  have hsub : g ∉ namesOf (fsA fs1) := fun hm => g_not_fs1 h ((names_subA fs1).subset hm)
   unfold idField
   rw [findSelection_skip_leaf _ _ _ _ _ _ _ _ hid, findSelection_leaves g _ _ hsub]
-  exact findSelection_head g g [] [] _ [] _ [] g (by simp)
+  exact findSelection_head g g [] [] _ [] _ _ g (by simp)
 
 theorem findSelection_q (q : String) (X : List Sel) (T : String) :
     findSelection q [.field q q [] [] (.named T) [] X] = some (.field q q [] [] (.named T) [] X) :=
   findSelection_head q q [] [] _ [] _ [] q (by simp)
 
 /-- the insertion point of the child step at `[q]`: `q#<id>` -/
-theorem findIP_q (T U q g : String) (fs hs : List FieldSpec) (i : String) (x : List (String × J)) :
-    findIP [q] [QNown T U q g fs hs] (respA q i x) [] = .ok [[pointQ q i]] := by
+theorem findIP_q (T U q g : String) (fs1 fs2 hs : List FieldSpec) (i : String) (x : List (String × J)) :
+    findIP [q] [QNown T U q g fs1 fs2 hs] (respA q i x) [] = .ok [[pointQ q i]] := by
   unfold findIP QNown
   rw [findSelection_q]
   simp [respA, J.lookup, selType, TypeRef.isList, extractID, bind, Except.bind, fmtID, pointQ]
 
 /-- the insertion point of the child step at `[q, g]`: `q`, then `g#<id'>` — the intermediate
     point carries NO id (only the last point of a path does) -/
-theorem findIP_qg (h : Fam c A B T U q g fs hs) (i i' : String) (a a' : List (String × J))
-    (hga : g ∉ J.keys a) :
-    findIP [q, g] [QNown T U q g fs hs] (respA q i (aG g i' a a')) [] = .ok [[q, pointQ g i']] := by
-  have hlk : J.lookup g (("id", J.str i) :: aG g i' a a') = some (.obj (("id", .str i') :: a')) := by
+theorem findIP_qg (h : Fam c A B T U q g fs1 fs2 hs) (i i' : String) (a1 a2 a' : List (String × J))
+    (hga : g ∉ J.keys a1) :
+    findIP [q, g] [QNown T U q g fs1 fs2 hs] (respA q i (aG g i' a1 a2 a')) [] = .ok [[q, pointQ g i']] := by
+  have hlk : J.lookup g (("id", J.str i) :: aG g i' a1 a2 a') = some (.obj (("id", .str i') :: a')) := by
     have : ¬ g = "id" := h.hgid
     simp only [J.lookup, this, ↓reduceIte, aG]
-    exact lookup_mid g _ a [] hga
+    exact lookup_mid g _ a1 a2 hga
   unfold findIP QNown
   rw [findSelection_q]
   simp only [respA, J.lookup, ↓reduceIte, selType, Bool.false_eq_true, TypeRef.isList,
@@ -109,51 +119,70 @@ theorem findIP_qg (h : Fam c A B T U q g fs hs) (i i' : String) (a a' : List (St
   rw [findSelection_g h, hlk]
   simp [selType, Gown, TypeRef.isList, extractID, bind, Except.bind, fmtID, pointQ, J.lookup]
 
-/-- the follow-up requests after depth 0 -/
-def nextN (B T U q g : String) (fs hs : List FieldSpec) (i i' : String) : List ExecReq :=
-  (stepsAt B T [q] (fsB fs)).map (fun d => ⟨d, [pointQ q i]⟩) ++
-  (stepsAt B U [q, g] (fsB hs)).map (fun d => ⟨d, [q, pointQ g i']⟩)
+/-- the follow-up requests of the two kinds -/
+def erT (B T q : String) (bs : List FieldSpec) (i : String) : ExecReq := ⟨stepAt B T [q] bs, [pointQ q i]⟩
+def erU (B U q g : String) (bs : List FieldSpec) (i' : String) : ExecReq := ⟨stepAt B U [q, g] bs, [q, pointQ g i']⟩
 
-theorem parseOne_root (h : Fam c A B T U q g fs hs) (i i' : String) (a a' : List (String × J))
-    (hga : g ∉ J.keys a) :
-    parseOne ⟨rootStepN A B T U q g fs hs, []⟩ (respA q i (aG g i' a a'))
-      = .ok (respA q i (aG g i' a a'), nextN B T U q g fs hs i i') := by
+/-- the follow-up requests after depth 0, in the order of the child steps -/
+def nextN (B T U q g : String) (fs1 fs2 hs : List FieldSpec) (i i' : String) : List ExecReq :=
+  match fsB fs1 with
+  | [] => (stepsAt B U [q, g] (fsB hs)).map (fun d => ⟨d, [q, pointQ g i']⟩) ++
+          (stepsAt B T [q] (fsB (fs1 ++ fs2))).map (fun d => ⟨d, [pointQ q i]⟩)
+  | _ :: _ => erT B T q (fsB (fs1 ++ fs2)) i :: (stepsAt B U [q, g] (fsB hs)).map (fun d => ⟨d, [q, pointQ g i']⟩)
+
+theorem parseOne_root (h : Fam c A B T U q g fs1 fs2 hs) (i i' : String) (a1 a2 a' : List (String × J))
+    (hga : g ∉ J.keys a1) :
+    parseOne ⟨rootStepN A B T U q g fs1 fs2 hs, []⟩ (respA q i (aG g i' a1 a2 a'))
+      = .ok (respA q i (aG g i' a1 a2 a'), nextN B T U q g fs1 fs2 hs i i') := by
+  have hU := findIP_qg h i i' a1 a2 a' hga
   unfold parseOne
   simp only [rootStepN, Step.parentType, isRootName, beq_self_eq_true, Bool.true_or, ↓reduceIte, bind, Except.bind,
     Step.thn, Step.sels, List.length_nil, childSteps, nextN]
-  cases hB : fsB fs with
+  cases hB1 : fsB fs1 with
   | nil =>
-    cases hB' : fsB hs with
-    | nil => simp [stepsAt, pure, Except.pure]
-    | cons b' bs' =>
-      simp only [stepsAt, stepAt, List.nil_append, List.foldlM_cons, List.foldlM_nil, Step.ip, List.drop_zero,
-        findIP_qg h i i' a a' hga, bind, Except.bind, pure, Except.pure, List.map_cons, List.map_nil]
-  | cons b bs =>
+    simp only []
     cases hB' : fsB hs with
     | nil =>
-      simp only [stepsAt, stepAt, List.append_nil, List.foldlM_cons, List.foldlM_nil, Step.ip, List.drop_zero,
+      cases hB : fsB (fs1 ++ fs2) with
+      | nil => simp [stepsAt, pure, Except.pure]
+      | cons b bs =>
+        simp only [stepsAt, stepAt, List.nil_append, List.foldlM_cons, List.foldlM_nil, Step.ip, List.drop_zero,
+          findIP_q, bind, Except.bind, pure, Except.pure, List.map_cons, List.map_nil]
+    | cons b' bs' =>
+      cases hB : fsB (fs1 ++ fs2) with
+      | nil =>
+        simp only [stepsAt, stepAt, List.append_nil, List.foldlM_cons, List.foldlM_nil, Step.ip, List.drop_zero,
+          hU, bind, Except.bind, pure, Except.pure, List.map_cons, List.map_nil, List.nil_append]
+      | cons b bs =>
+        simp only [stepsAt, stepAt, List.cons_append, List.nil_append, List.foldlM_cons, List.foldlM_nil, Step.ip,
+          List.drop_zero, findIP_q, hU, bind, Except.bind, pure, Except.pure, List.map_cons, List.map_nil]
+  | cons b1 bs1 =>
+    simp only []
+    cases hB' : fsB hs with
+    | nil =>
+      simp only [stepsAt, stepAt, erT, List.foldlM_cons, List.foldlM_nil, Step.ip, List.drop_zero,
         findIP_q, bind, Except.bind, pure, Except.pure, List.map_cons, List.map_nil, List.nil_append]
     | cons b' bs' =>
-      simp only [stepsAt, stepAt, List.cons_append, List.nil_append, List.foldlM_cons, List.foldlM_nil, Step.ip,
-        List.drop_zero, findIP_q, findIP_qg h i i' a a' hga, bind, Except.bind, pure, Except.pure, List.map_cons,
-        List.map_nil]
+      simp only [stepsAt, stepAt, erT, List.foldlM_cons, List.foldlM_nil, Step.ip,
+        List.drop_zero, findIP_q, hU, bind, Except.bind, pure, Except.pure, List.map_cons,
+        List.map_nil, List.nil_append, List.cons_append]
 
 /-- **Depth 0**: one batched call to `A`; its answer becomes the result; one follow-up request per
     child step — at `[q#<id>]` for the fields of `T`, at `[q, g#<id'>]` for the fields of `U`. -/
-theorem depth0 (h : Fam c A B T U q g fs hs) (down : Downstream) (i i' : String) (a a' : List (String × J))
-    (hga : g ∉ J.keys a)
-    (hdown : down A [rqOf c (rootStepN A B T U q g fs hs) []] = .ok [respA q i (aG g i' a a')]) :
-    execDepth c {} none down [⟨rootStepN A B T U q g fs hs, []⟩] ⟨[], []⟩
-      = .ok (⟨respA q i (aG g i' a a'), [⟨A, [rqOf c (rootStepN A B T U q g fs hs) []]⟩]⟩,
-             nextN B T U q g fs hs i i') := by
-  have hroot : isRootName (rootStepN A B T U q g fs hs).parentType = true := by
+theorem depth0 (h : Fam c A B T U q g fs1 fs2 hs) (down : Downstream) (i i' : String) (a1 a2 a' : List (String × J))
+    (hga : g ∉ J.keys a1)
+    (hdown : down A [rqOf c (rootStepN A B T U q g fs1 fs2 hs) []] = .ok [respA q i (aG g i' a1 a2 a')]) :
+    execDepth c {} none down [⟨rootStepN A B T U q g fs1 fs2 hs, []⟩] ⟨[], []⟩
+      = .ok (⟨respA q i (aG g i' a1 a2 a'), [⟨A, [rqOf c (rootStepN A B T U q g fs1 fs2 hs) []]⟩]⟩,
+             nextN B T U q g fs1 fs2 hs i i') := by
+  have hroot : isRootName (rootStepN A B T U q g fs1 fs2 hs).parentType = true := by
     simp [rootStepN, Step.parentType, isRootName]
-  have hurl : (rootStepN A B T U q g fs hs).url = A := rfl
+  have hurl : (rootStepN A B T U q g fs1 fs2 hs).url = A := rfl
   unfold execDepth
   simp only [partitionByURL, List.foldl_cons, List.foldl_nil, List.find?_nil, List.nil_append, hurl,
     List.foldlM_cons, List.foldlM_nil, bind, Except.bind, buildBatch_root c _ hroot, hdown, List.length_cons,
     List.length_nil, bne_self_eq_false, Bool.false_eq_true, ↓reduceIte, List.zip_cons_cons, List.zip_nil_right,
-    List.getElem?_cons_zero, Option.getD_some, parseOne_root h i i' a a' hga, pure, Except.pure]
+    List.getElem?_cons_zero, Option.getD_some, parseOne_root h i i' a1 a2 a' hga, pure, Except.pure]
   simp [respA, mergeResult_root []]
 
 end PebblesVerif.FlatNested
